@@ -19,7 +19,9 @@ FacetValues == [
     digest |-> {"ok", "bad", "short", "long", "empty"},     \* wrong octet; a proper prefix; the digest plus one octet; no octets
     sig    |-> {"ok", "wrongkey", "bitflip"},
     sid    |-> {"ok", "bad"},
-    ee     |-> {"ok", "wrongissuer", "expired", "notyet", "akibad"},
+    \* the embedded certificate: signed by another key, outside its validity, wrong AKI, a CA certificate (cA = TRUE), or a
+    \* subject key identifier that is not the hash of its key (the signer identifier then names that wrong identifier)
+    ee     |-> {"ok", "wrongissuer", "expired", "notyet", "akibad", "isca", "skibad"},
     ctattr |-> {"ok", "mismatch"},                   \* content-type attribute vs eContentType
     \* ROA: a prefix disjoint from the EE resources / less specific than a resource block / straddling the end of a range /
     \*      of a family the certificate has no resources for; ASPA: customer outside, inherited, IP resources present
